@@ -130,7 +130,8 @@ def blkPush (o : Obj) (b : Blk) (sbn esi plen : Nat) : Blk :=
 def pushToBlock2 (o : Obj) (p : Pkt) : Except Obj (Obj × List WEv) :=
   match p.pid, o.oti, o.tlen with
   | some (sbn, esi), some _oti, some l =>
-    if l = 0 then .ok (complete o) else
+    -- D14 repaired (/repo 7ec1ac7): an empty object is completed only once its writer exists
+    if l = 0 then .ok (if o.wsess ≠ .none then complete o else (o, [])) else
     if sbn ≥ o.nbBlocks then .ok (o, []) else
     if sbn < o.blocksOffset then .ok (o, []) else
     if sbn - o.blocksOffset ≥ o.blocks.length ∧ sbn - o.blocksOffset > 2 * 2048 then .error { o with st := .error } else
